@@ -12,7 +12,8 @@ PROPERTY = "C05"
 LEVEL = "exploration"
 RULE = ("cases are (layout, operation in {num, flatten, localindex, flatten-all}, axis) with axes drawn from all legal "
         "positive and negative values plus out-of-range ones; layouts cover every list/option encoding, regular "
-        "dimensions, n-d NumPy leaves, records below the axis; non-trivial = array length > 0; distinct = SHA-1 of the "
+        "dimensions, n-d NumPy leaves, records below the axis; for records/unions of uniform depth a negative axis "
+        "must act as its non-negative equivalent; non-trivial = array length > 0; distinct = SHA-1 of the "
         "case descriptor")
 VARIANTS = {"quick": ["asan"], "thorough": ["asan"]}
 BUDGET = {"quick": dict(cases=200000, seconds=45), "thorough": dict(cases=600000, seconds=900)}
@@ -36,6 +37,9 @@ def gen_case(rng, tier, index):
     nlev, branches = cc.levels_above_branch(T)
     hi = gen.depth_of(T)[1]
     name = rng.choice(["num", "flatten", "localindex"])
+    na = cc.maybe_negaxis(rng, T)
+    if na:
+        return {"T": T, "layout": d, "op": {"op": name, "axis": na[0]}, "negaxis": na[1], "depth": None, "nlev": nlev}
     if branches:
         axis = rng.randint(0, nlev - 1)           # only levels above the record: positive axes
     else:
@@ -56,7 +60,9 @@ def run_case(ctx, case):
     depth = case["depth"] if case["depth"] is not None else case["nlev"] + 50   # levels below a record are not probed
     out = ops.run_op(b, h, op)
     ctx.cover("op", op["op"])
-    ctx.cover("axis", op["axis"])
+    if "negaxis" in case:
+        ctx.nontrivial(len(v) > 0)
+        return cc.check_negaxis(ctx, b, h, case, out)
     for k in model.classes(d):
         ctx.cover("input_classes", k)
     ctx.nontrivial(len(v) > 0)
@@ -86,6 +92,8 @@ def classify(vio):
 def signature(vio):
     det = vio.get("detail") or {}
     op = det.get("op") or {}
+    if vio["kind"] == "negative-axis-differs":
+        return cc.negaxis_signature(vio)
     return "%s:%s" % (vio["kind"], op.get("op")) if vio["kind"] in ("wrong-value", "unexpected-error", "missing-error") else None
 
 
